@@ -197,7 +197,14 @@ def field_to_py(d: FDesc, v):
     if v[0] == "null":
         return None
     if v[0] == "arr":
-        return tuple(item_to_py(d, x) for x in v[1])
+        # equal consecutive elements are ONE object (what `(x, x)` or `(x,) * n` gives a user): identity must not matter
+        out = []
+        for i, x in enumerate(v[1]):
+            if i and x == v[1][i - 1] and x[0] in ("ent", "str", "bytes", "uuid"):
+                out.append(out[-1])
+            else:
+                out.append(item_to_py(d, x))
+        return tuple(out)
     return item_to_py(d, v)
 
 
@@ -428,6 +435,15 @@ class Gen:
             n = {"empty": 0, "one": 1}.get(c)
             if n is None:
                 n = r.randint(2, 4 if depth < 2 else 2)
+            if n >= 2 and not force_null_item and r.random() < 0.2:
+                # a run of equal elements (built as one shared object by to_py), alone or next to different ones
+                self.count("array:repeated-element")
+                items = [self.item(d, depth) for _ in range(n)]
+                k = r.randrange(1, n)
+                items[k] = items[k - 1]
+                if n >= 3 and r.random() < 0.5:
+                    items[(k + 1) % n] = items[k - 1] if (k + 1) % n == k + 1 else items[(k + 1) % n]
+                return ("arr", items)
             if force_null_item:
                 # every other instance of a class with a tuple[X | None, ...] field holds a null ELEMENT there, alone or among others
                 n = max(n, 1)
